@@ -1,7 +1,11 @@
 import TenpyModel.Util.J
 import TenpyModel.C20.Events
+import TenpyModel.C20.Cache
+import TenpyModel.C20.Threaded
 open Lean TenpyModel TenpyModel.J
 open TenpyModel.C20
+
+/-! ## events -/
 
 def parseEvOp (j : Json) : Except String Events.Op := do
   let a ← getArr j
@@ -20,6 +24,117 @@ def evOut : Events.Out → Json
   | .warned w => obj [("warned", w)]
   | .called cbs => obj [("called", ofNatList cbs)]
 
+/-! ## sequential cache: ops are `[cache id, name, args..]` -/
+
+def parseCacheOp (j : Json) : Except String (Nat × Cache.Op) := do
+  let a ← getArr j
+  match a with
+  | c :: t :: args =>
+    let c ← getNat c
+    let s ← getStr t
+    match s, args with
+    | "set", [k, v] => return (c, .set (← getNat k) (← getNat v))
+    | "get", [k] => return (c, .get (← getNat k))
+    | "getitem", [k] => return (c, .getitem (← getNat k))
+    | "del", [k] => return (c, .del (← getNat k))
+    | "contains", [k] => return (c, .contains (← getNat k))
+    | "len", [] => return (c, .len)
+    | "iter", [] => return (c, .iter)
+    | "stk", [ks] => return (c, .setShortTermKeys (← natList ks))
+    | "preload", [ks, r] => return (c, .preload (← natList ks) (← getBool r))
+    | "sub", [n] => return (c, .createSubcache (← getNat n))
+    | "close", [] => return (c, .close)
+    | "bool", [] => return (c, .isOpen)
+    | _, _ => throw s!"bad cache op {s}"
+  | _ => throw "bad cache op"
+
+def errName : Cache.Err → String
+  | .keyError => "KeyError"
+  | .closed => "closed"
+  | .alreadyClosed => "alreadyClosed"
+  | .subExists => "subExists"
+  | .missing => "missing"
+  | .badCache => "badCache"
+
+def insertSorted (x : Nat) : List Nat → List Nat
+  | [] => [x]
+  | y :: ys => if x ≤ y then x :: y :: ys else y :: insertSorted x ys
+
+def sortNat (l : List Nat) : List Nat := l.foldr insertSorted []
+
+def cacheOut : Cache.Out → Json
+  | .unit => Json.null
+  | .val none => obj [("val", Json.null)]
+  | .val (some v) => obj [("val", v)]
+  | .bool b => obj [("bool", b)]
+  | .nat n => obj [("nat", n)]
+  | .keys l => obj [("keys", ofNatList (sortNat l))]
+  | .sub c => obj [("sub", c)]
+  | .err e => obj [("err", errName e)]
+
+def scallJson : Cache.SCall → Json
+  | .load c k => Json.arr #[0, c, k]
+  | .preload c k => Json.arr #[1, c, k]
+  | .save c k v => Json.arr #[2, c, k, v]
+  | .delete c k => Json.arr #[3, c, k]
+  | .close => Json.arr #[4]
+
+/-- run the sequential model, returning outputs and the storage calls of every operation -/
+def runCache (s : Cache.Sys) : List (Nat × Cache.Op) → List Cache.Out × List (List Cache.SCall)
+  | [] => ([], [])
+  | (i, op) :: ops =>
+    let cs := Cache.calls s i op
+    let r := Cache.step s i op
+    let rs := runCache r.1 ops
+    (r.2 :: rs.1, cs :: rs.2)
+
+/-! ## threaded storage -/
+
+/-- keys of container `c` are `16 * c + k` in the threaded model -/
+def encKey (c k : Nat) : Nat := 16 * c + k
+
+def parseCall (j : Json) : Except String Threaded.Call := do
+  let a ← natList j
+  match a with
+  | [0, k] => return .load k
+  | [1, k] => return .preload k
+  | [2, k, v] => return .save k v
+  | [3, k] => return .delete k
+  | _ => throw "bad call"
+
+def scallToCall : Cache.SCall → List Threaded.Call
+  | .load c k => [.load (encKey c k)]
+  | .preload c k => [.preload (encKey c k)]
+  | .save c k v => [.save (encKey c k) v]
+  | .delete c k => [.delete (encKey c k)]
+  | .close => []
+
+def tid (n : Nat) : Threaded.Tid := if n == 0 then .main else .worker
+
+def outJson : Threaded.Out → Json
+  | .ret none => Json.null
+  | .ret (some v) => obj [("val", v)]
+  | .err .workerDied => obj [("err", "WorkerDied")]
+  | .err .assertion => obj [("err", "AssertionError")]
+
+def threadedRun (prog : List Threaded.Call) (maxsize : Nat) (failAt : Option Nat) (sched : List Nat) : Json :=
+  let s0 := Threaded.init prog maxsize failAt
+  let r := Threaded.trace (sched.map tid) s0 []
+  let s := r.1
+  obj [("trace", ofList (fun (x : Threaded.Lab × Bool × Bool) =>
+          Json.arr #[ofNatList x.1, x.2.1, x.2.2]) r.2.1),
+       ("ok", r.2.2),
+       ("outs", ofList outJson s.outs.reverse),
+       ("main_enabled", Threaded.enabled .main s),
+       ("worker_enabled", Threaded.enabled .worker s),
+       ("main_done", decide (s.mpc = .done)),
+       ("worker_dead", decide (s.wpc = .dead)),
+       ("next_main", ofNatList (Threaded.labelMain s)),
+       ("next_worker", ofNatList (Threaded.labelWorker s)),
+       ("reads_ok", s.reads.all (fun x => match x.2.2 with | none => true | some a => a == x.2.1)),
+       ("queue_len", s.queue.length),
+       ("unfinished", s.unfinished)]
+
 def handle (j : Json) : Except String Json := do
   let k ← getStr (← field j "k")
   if k == "events" then
@@ -28,6 +143,28 @@ def handle (j : Json) : Except String Json := do
     return obj [("outs", ofList evOut r.2),
                 ("listeners", ofList (fun (l : Events.Listener) => Json.arr #[l.id, l.cb, l.prio]) r.1.listeners),
                 ("counter", r.1.counter)]
+  else if k == "cache" then
+    let ops ← listOf parseCacheOp (← field j "ops")
+    let uniq ← getBool (← field j "unique")
+    let r := runCache (Cache.init ⟨uniq⟩) ops
+    return obj [("outs", ofList cacheOut r.1), ("calls", ofList (ofList scallJson) r.2)]
+  else if k == "threaded" then
+    let prog ← listOf parseCall (← field j "prog")
+    let maxsize ← getNat (← field j "maxsize")
+    let failAt ← optOf getNat (fieldD j "failAt" Json.null)
+    let sched ← natList (← field j "sched")
+    return threadedRun prog maxsize failAt sched
+  else if k == "tcache" then
+    -- DictCache ops over a ThreadedStorage: sequential model gives outputs and storage calls,
+    -- the calls are the program of the threaded model
+    let ops ← listOf parseCacheOp (← field j "ops")
+    let maxsize ← getNat (← field j "maxsize")
+    let failAt ← optOf getNat (fieldD j "failAt" Json.null)
+    let sched ← natList (← field j "sched")
+    let r := runCache (Cache.init ⟨true⟩) ops
+    let prog := (r.2.flatten).flatMap scallToCall
+    return (threadedRun prog maxsize failAt sched).setObjVal! "seq_outs" (ofList cacheOut r.1)
+      |>.setObjVal! "calls" (ofList (ofList scallJson) r.2)
   else throw s!"unknown kind {k}"
 
 def main : IO Unit := serve handle
